@@ -80,3 +80,15 @@ theorem on_and_sound (env : Env N) (data km : Row N) {a b : Expr N} (ha : OnFrag
   simpa [flat, sem] using this
 
 end Genql.C04
+
+namespace Genql.C04
+open Genql
+variable {N : Type} [Num N]
+/-- **outside the predicate fragment**: a function call drops the hard-coded read for its arguments (`FunExpr` calls
+    `FuncArgReader` without the expression options), so inside ON a column written as an argument of a function is read as
+    an ordinary path on the merged key map — where it is absent, i.e. NULL.  The model mirrors this; C04's grammar (boolean
+    combinations of column-to-column comparisons) has no function calls, and no listed property speaks about them in ON. -/
+theorem func_args_read_as_paths (env : Env N) (ctx : Ctx N) (cur : Row N) (name : String) (args : List (Expr N)) :
+    evalExpr env ctx cur (.func .none name args) = evalExpr env { ctx with hard := false } cur (.func .none name args) := by
+  simp only [evalExpr]
+end Genql.C04
